@@ -1,3 +1,4 @@
+import Fpdec.Kernels.WideSpecial
 import Fpdec.Kernels.WideDiv
 import Fpdec.Kernels.WideFits
 import Fpdec.Kernels.Wide
@@ -135,5 +136,11 @@ theorem kernel_i128_shifted_div_mod_floor (prof : Profile) (x : Int) (p : Nat) (
   Kernels.i128_shifted_div_mod_floor_eq prof x p y
 theorem kernel_i256_div_mod_floor (prof : Profile) (x1 x2 y : Int) :
     Gen.K.i256_div_mod_floor_k prof x1 x2 y = i256DivModFloor prof x1 x2 y := Kernels.i256_div_mod_floor_eq prof x1 x2 y
+
+/-- Knuth's algorithm D (`u256_idiv_u128_special`) with both correction loops, as translated from the source on this run -/
+theorem kernel_u256_idiv_u128_special (prof : Profile) (xh xl y : Nat) (hy0 : 0 < y)
+    (hy : y < 340282366920938463463374607431768211456) (hxl : xl < 340282366920938463463374607431768211456) :
+    Gen.K.u256_idiv_u128_special_k prof xh xl y = u256IdivU128Special prof xh xl y :=
+  Kernels.u256_idiv_u128_special_eq prof xh xl y hy0 hy hxl
 
 end Fpdec.Props.C16
